@@ -23,7 +23,11 @@ Inductive d_op :=
 | DDel (thr : Z) (cbs1 cbs2 : list (nat * Z)) (gone1 gone2 : bool)
 | DTimeline (st et : Z) (t1 t2 : o_tl)
 | DMeta (m1 m2 : o_meta)
-| DSetMeta (m : o_meta).                 (* SetMetadata(m) on both copies *)
+| DSetMeta (m : o_meta)                  (* SetMetadata(m) on both copies *)
+(* the original is serialised while a Put (w1) from another goroutine arrives part-way through the stream;
+   the copy gets the same Put (w2) plainly.  before/after: the original's tree before Serialize started and
+   after both finished; loaded/dec: FromBytes of the bytes that Serialize produced, and its tree *)
+| DConcSer (w1 w2 : o_write) (before after : option onode) (loaded : bool) (dec : option onode) (bs : bytes).
 
 Record case := {
   d_build : list b_op;
@@ -175,6 +179,22 @@ Fixpoint run_ops (exp : option (o_meta * o_meta)) (ops : list d_op) (s : segment
                                "metadata getters of the original differ from the last SetMetadata" :: acc)
   | DSetMeta m :: ops' =>
       run_ops (match exp with Some _ => Some (m, m) | None => None end) ops' (s_set_meta (meta_of m) s) acc
+  | DConcSer w1 w2 before after loaded dec bs :: ops' =>
+      let '(s', v) := model_put s w1 in
+      run_ops exp ops' s'
+        (v ::
+         spec (ow_eqb w1 w2) "Put: the reloaded copy made different callbacks" ::
+         (* an empty segment (everything removed by retention) does not serialise to loadable bytes: C14 is
+            about non-empty trees *)
+         spec (loaded || match before with None => true | Some _ => false end)
+              "bytes saved while a write was arriving do not load" ::
+         spec (negb loaded || oon_eqb dec before || oon_eqb dec after)
+              "bytes saved while a write was arriving are neither the state before the write nor the state after it" ::
+         corr (tree_matches s before) "model tree differs from the segment before the concurrent save" ::
+         corr (match s_deserialize read_meta bs with
+               | Some sd => tree_matches sd dec
+               | None => negb loaded
+               end) "model decoder differs from FromBytes on the bytes saved during a write" :: acc)
   end.
 
 Definition check_case (c : case) : verdict :=
